@@ -76,6 +76,11 @@ ALPHABETS = {
     # characters that codecs / normalisers like to treat specially: BOM,
     # line/paragraph separators, NEL, zero-width, replacement, non-characters
     'special': '\ufeff\u2028\u2029\x85\u200b\ufffd\ufffe\u0130\u212a',
+    # not stable under NFC / NFD / NFKC / case mapping: combining acute, e
+    # acute, fi ligature, full-width A, circled 1, capital sharp s, micro
+    # sign, long s, dotless i, Angstrom, Ohm, a CJK compatibility ideograph
+    'norm': '\u0301\u00e9\ufb01\uff21\u2460\u1e9e\u00b5\u017f\u0131\u212b'
+            '\u2126\uf900e',
 }
 _ALPHA_NAMES = sorted(ALPHABETS)
 
@@ -97,6 +102,15 @@ def rstr_bytes(rnd, nbytes, alpha=None):
 
 
 SHORT_LENS = [0, 1, 2, 3, 127, 128, 129, 254, 255]
+# strings that a convenience coercion or a sanitiser would treat as something
+# else: numbers, booleans, nulls, containers, padded / mixed-case text
+LOOKALIKES = ['0', '1', '-1', '+1', '12', '007', '1.5', '1e5', '1E+2', 'NaN',
+              'nan', 'inf', '-inf', 'Infinity', 'true', 'True', 'false',
+              'FALSE', 'null', 'None', 'none', '[]', '{}', "b'x'", '0x10',
+              '1_000', '\u0661\u0662\u0663', '\uff11\uff12', ' 1', '1 ', ' ',
+              '  padded  ', '\tx\n', 'MiXeD', 'UPPER', 'x\x00', '\x00',
+              '1970-01-01T00:00:00Z', '2001-02-03', '1e400', '-0', '0.0',
+              '4294967296', '18446744073709551616', 'yes', 'no', 'on', 'off']
 
 
 def rshortstr(rnd):
@@ -107,6 +121,8 @@ def rshortstr(rnd):
         n = rnd.randint(0, 24)
     else:
         n = rnd.randint(0, 255)
+    if rnd.random() < 0.04:
+        return rnd.choice(LOOKALIKES)
     s = rstr_bytes(rnd, n)
     if rnd.random() < 0.03 and n >= 4:
         s = 'AMQP' + rstr_bytes(rnd, n - 4, 'ascii')
@@ -125,6 +141,8 @@ def rlongstr(rnd, big=False):
         n = rnd.choice([4095, 4096, 65535, 65536, 70000])
     if n >= 3 and rnd.random() < 0.04:
         return '\ufeff' + rstr_bytes(rnd, n - 3)
+    if rnd.random() < 0.04:
+        return rnd.choice(LOOKALIKES)
     return rstr_bytes(rnd, n)
 
 
@@ -156,6 +174,8 @@ def rkey(rnd):
         return rnd.choice(REAL_KEYS)
     if k < 0.15:
         return rnd.choice(TEMPLATE_KEYS)
+    if k < 0.17:
+        return rnd.choice(LOOKALIKES)
     k = rnd.random()
     if k < 0.08:
         return ''
@@ -399,7 +419,18 @@ def table(rnd, depth=0, max_depth=4, width=None):
 def array(rnd, depth=0, max_depth=4, width=None):
     if width is None:
         width = rnd.choice([0, 1, 2, 3, 5])
-    return [value(rnd, depth, max_depth) for _ in range(width)]
+    out = [value(rnd, depth, max_depth) for _ in range(width)]
+    k = rnd.random()
+    if out and k < 0.12:
+        # repeated items (equal values, one object): runs, all-equal arrays,
+        # first == last - what a de-duplicating or set-building encoder eats
+        i = rnd.randrange(len(out))
+        out[i:i + 1] = [out[i]] * rnd.choice([2, 2, 3, 7])
+        if rnd.random() < 0.4:
+            out.append(out[0])
+    elif out and k < 0.16:
+        out = sorted(out, key=repr, reverse=rnd.random() < 0.5)
+    return out
 
 
 def wide_table(rnd, n=300):
